@@ -43,6 +43,9 @@ def run_property(prop: str, project: Project, tier: str) -> R.Report:
         rep.notes.append(f"the reading with new helpers inlined was undecided ({e}); verdict from the sources as written")
         import os
 
-        if os.environ.get("SA_RAW_VIEW_MAY_ALARM", "1") == "0" and rep.findings() and R.classify(rep)[1]:
+        # the sources as written show new helpers as opaque calls: what that reading can do is clear the property or stay
+        # undecided — a finding there is as likely an artefact of the opaque call as a defect (measured on the independent
+        # behaviour-preserving corpus), so it is reported as undecided together with what the inlined reading could not read
+        if os.environ.get("SA_RAW_VIEW_MAY_ALARM", "0") == "0" and rep.findings() and R.classify(rep)[1]:
             raise AnalysisError(f"{e} (and the sources as written, where the new helpers are opaque calls, would be flagged: {str(R.classify(rep)[1][0])[:120]})")
         return rep
